@@ -149,6 +149,53 @@ func randProfilePayload(r *rng, n int) []byte {
 	return b
 }
 
+// validAncillary gives a chunk of a known ancillary type the payload the PNG specification defines for
+// it in an image of this colour type and depth (what real encoders write), instead of random bytes.
+func validAncillary(r *rng, typ string, ctype, depth byte) ([]byte, bool) {
+	sig := func() byte { // a significant-bit count: 1..depth (1..8 for palette images)
+		m := int(depth)
+		if ctype == 3 {
+			m = 8
+		}
+		return byte(1 + r.intn(m))
+	}
+	switch typ {
+	case "sBIT":
+		n := map[byte]int{0: 1, 2: 3, 3: 3, 4: 2, 6: 4}[ctype]
+		b := make([]byte, n)
+		for i := range b {
+			b[i] = sig()
+		}
+		return b, true
+	case "gAMA":
+		return be32(uint32(r.pick(45455, 100000, 55556, 1))), true
+	case "cHRM":
+		var b []byte
+		for _, v := range []uint32{31270, 32900, 64000, 33000, 30000, 60000, 15000, 6000} {
+			b = append(b, be32(v)...)
+		}
+		return b, true
+	case "sRGB":
+		return []byte{byte(r.intn(4))}, true
+	case "pHYs":
+		return append(append(be32(uint32(r.pick(2835, 3780, 1))), be32(uint32(r.pick(2835, 3780, 1)))...), byte(r.intn(2))), true
+	case "tIME":
+		return []byte{0x07, 0xe8, byte(1 + r.intn(12)), byte(1 + r.intn(28)), byte(r.intn(24)), byte(r.intn(60)), byte(r.intn(61))}, true
+	case "bKGD":
+		switch ctype {
+		case 3:
+			return []byte{byte(r.intn(2))}, true
+		case 0, 4:
+			return be16(uint16(r.intn(1 << depth))), true
+		default:
+			return append(append(be16(uint16(r.intn(1<<depth))), be16(uint16(r.intn(1<<depth)))...), be16(uint16(r.intn(1<<depth)))...), true
+		}
+	case "tEXt":
+		return append(append([]byte("Comment"), 0), []byte("made by pv")...), true
+	}
+	return nil, false
+}
+
 func randPngDesc(r *rng, withICC bool, profile []byte) *pngDesc {
 	cb := pngCombos[r.intn(len(pngCombos))]
 	d := &pngDesc{w: boundary32(r, 31), h: boundary32(r, 31), ctype: cb[0], depth: cb[1], interlace: byte(r.intn(2))}
@@ -158,11 +205,28 @@ func randPngDesc(r *rng, withICC bool, profile []byte) *pngDesc {
 	for i := r.intn(3); i > 0; i-- {
 		d.post = append(d.post, randAncillary(r, 300))
 	}
+	// two ancillary chunks in three carry the payload the specification defines for their type
+	for _, l := range []*[]pngChunk{&d.pre, &d.post} {
+		for k := range *l {
+			if r.intn(3) != 0 {
+				if b, ok := validAncillary(r, (*l)[k].typ, d.ctype, d.depth); ok {
+					(*l)[k].data = b
+				}
+			}
+		}
+	}
 	if withICC {
 		n := 1 + r.intn(79)
+		if r.intn(4) == 0 {
+			n = r.pick(1, 2, 78, 79, 79)
+		}
 		name := make([]byte, n)
+		latin1 := r.intn(3) == 0 // PNG keywords are Latin-1: printable 161-255 are legal too
 		for i := range name {
 			name[i] = byte(32 + r.intn(95))
+			if latin1 && r.intn(3) == 0 {
+				name[i] = byte(161 + r.intn(95))
+			}
 		}
 		d.iccName = string(name)
 		d.iccZ = zlibCompress(profile, []int{zlib.NoCompression, zlib.BestSpeed, zlib.DefaultCompression, zlib.BestCompression, zlib.HuffmanOnly}[r.intn(5)])
@@ -488,19 +552,35 @@ func (d *iccDesc) build() []byte {
 	return b.Bytes()
 }
 
-func textDescTag(ascii []byte) []byte {
+func textDescTag(ascii []byte) []byte { return textDescTagFull(ascii, nil, nil) }
+
+// textDescTagFull: a v2 textDescriptionType element with all three of its parts — the 7-bit ASCII
+// description, the Unicode description (language code, count of UTF-16BE units including the
+// terminator, units) and the Macintosh ScriptCode description (code, count, 67 bytes).
+func textDescTagFull(ascii []byte, uni []uint16, script []byte) []byte {
 	var b bytes.Buffer
 	b.WriteString("desc")
 	b.Write(be32(0))
 	b.Write(be32(uint32(len(ascii) + 1)))
 	b.Write(ascii)
 	b.WriteByte(0)
-	// unicode and scriptcode parts as real profiles have them
-	b.Write(be32(0))
-	b.Write(be32(0))
+	if len(uni) == 0 {
+		b.Write(be32(0))
+		b.Write(be32(0))
+	} else {
+		b.WriteString("enUS")
+		b.Write(be32(uint32(len(uni) + 1)))
+		b.Write(utf16be(uni))
+		b.Write([]byte{0, 0})
+	}
+	sc := make([]byte, 67)
+	n := copy(sc, script)
+	if n > 0 && n < 67 {
+		n++ // terminator counted
+	}
 	b.Write(be16(0))
-	b.WriteByte(0)
-	b.Write(make([]byte, 67))
+	b.WriteByte(byte(n))
+	b.Write(sc)
 	return b.Bytes()
 }
 
@@ -601,11 +681,23 @@ func randIccDesc(r *rng, maxTags int) (*iccDesc, [][]byte) {
 				if r.intn(6) == 0 {
 					n = r.intn(2001)
 				}
+				if r.intn(6) == 0 {
+					n = 0 // an empty ASCII part (profiles whose name is given in the other parts only)
+				}
 				ascii := make([]byte, n)
 				for k := range ascii {
 					ascii[k] = byte(0x20 + r.intn(0x5f))
 				}
-				d.tags = append(d.tags, iccTag{0x64657363, textDescTag(ascii)})
+				// half of the v2 descriptions carry the Unicode and ScriptCode parts as well, with other text
+				var uni []uint16
+				var script []byte
+				if r.intn(2) == 0 {
+					uni = randText(r, 1+r.intn(30))
+					if r.intn(2) == 0 {
+						script = []byte("Mac script name")[:1+r.intn(15)]
+					}
+				}
+				d.tags = append(d.tags, iccTag{0x64657363, textDescTagFull(ascii, uni, script)})
 				want = [][]byte{ascii}
 			} else {
 				nrec := 1 + r.intn(5)
